@@ -228,6 +228,7 @@ def run(ctx):
 
     d10_redefinition_gets_fresh_temp(db, rep)
     d11_const_load_width(db, rep)
+    div_guarded(db, rep)
     importlib.import_module("rules.c15").const_slot_shared_by_size(db, rep, "D12-CONST-SLOT-BY-SIZE")
     __import__("importlib").import_module("rules.c03").c_index_products_wide(db, rep, "D13-INDEX-WIDE")
 
@@ -407,3 +408,110 @@ def d11_const_load_width(db, rep, rule="D11-CONST-LOAD-WIDTH"):
                   "c_rule_loadpX prints the %s literal template for a %d-byte load of a constant declared with %d bytes (the choice follows the declared size, "
                   "not the width of the load): `.const 4 c -1` used by `addq` becomes `var.i = 0xffffffff` in the Orc-free and backup code, which adds "
                   "4294967295 where emulation and the JIT add -1" % ("/".join(got) or "no", load, decl), line=f.line)
+
+
+def _strip_outer(t):
+    import re as _re
+    t = _re.sub(r"\s+", "", t)
+    prev = None
+    while prev != t:
+        prev = t
+        t = _re.sub(r"\((?:const)?(?:orc_)?(?:u?int(?:8|16|32|64)(?:_t)?|unsignedint|int|unsigned)\)", "", t)
+        if t.startswith("(") and t.endswith(")"):
+            d = 0
+            for i, ch in enumerate(t):
+                d += ch == "("
+                d -= ch == ")"
+                if d == 0 and i < len(t) - 1:
+                    break
+            else:
+                t = t[1:-1]
+    return t
+
+
+def _operand_after(t, i):
+    """balanced operand text starting at t[i] (a parenthesised group with what a cast applies to, or a name/number)."""
+    j = i
+    n = len(t)
+    while j < n:
+        if t[j] == "(":
+            d = 0
+            k = j
+            while k < n:
+                d += t[k] == "("
+                d -= t[k] == ")"
+                k += 1
+                if d == 0:
+                    break
+            grp = t[j:k]
+            j = k
+            import re as _re
+            if _re.fullmatch(r"\((?:orc_)?(?:u?int(?:8|16|32|64)(?:_t)?|unsigned int|int|unsigned)\)", grp):
+                continue            # a cast: the operand goes on
+            break
+        m = __import__("re").match(r"[A-Za-z_0-9.\[\]>-]+", t[j:])
+        if m:
+            j += m.end()
+        break
+    # a trailing `& mask` inside the same parenthesis level binds looser than `/`, so it is not part of the operand
+    return t[i:j]
+
+
+def div_guarded(db, rep, rule="D12-DIVISOR-GUARDED"):
+    """An integer division in generated C traps (SIGFPE) when the divisor is 0; the reference result for that case is a constant.
+    Every C-rule template with an integer `/` whose divisor is not a literal must therefore select the constant under a test
+    `(G == 0) ?` whose G is the divisor itself - same operand, same mask.  A guard on the unmasked operand (`src2 == 0`) with
+    a division by `src2 & 0xff` lets 0x0100 through to a division by zero: emulation returns 255, the backup function kills
+    the process."""
+    import re as _re
+    tu = db.tu("orcprogram-c")
+    n = 0
+    for f in tu.main_functions():
+        ints = set()
+        for c in f.calls("c_get_name_int"):
+            a = strip_casts(c.args()[0]) if c.args() else None
+            if a is not None and a.k == "DeclRefExpr":
+                ints.add(a.name)
+        for c in f.calls("orc_compiler_append_code"):
+            a = c.args()
+            lit = strip_casts(a[1]) if len(a) > 1 else None
+            if lit is None or lit.k != "StringLiteral":
+                continue
+            fmt = lit.get("str", "")
+            names = []
+            for x in a[2:]:
+                xs = strip_casts(x)
+                names.append(xs.name if xs is not None and xs.k == "DeclRefExpr" else (xs.get("str", "?") if xs is not None and xs.k == "StringLiteral" else "?"))
+            it = iter(names)
+            text = _re.sub(r"%[sd]", lambda m: next(it, "?"), fmt)
+            text = _re.sub(r"/\*.*?\*/", "", text)
+            for m in _re.finditer(r"/(?![*/=])", text):
+                div = _operand_after(text, m.end())
+                # `(cast)x & mask` written inside one parenthesis: the group is the operand already
+                dn = _strip_outer(div)
+                if not dn or _re.fullmatch(r"[0-9a-fxA-FXuUlL.]+", dn):
+                    continue
+                if not any(_re.search(r"\b%s\b" % _re.escape(v), dn) for v in ints):
+                    continue            # float division, or a divisor that is not an element value
+                n += 1
+                rep.saw(f)
+                guards = []
+                for g in _re.finditer(r"==\s*0\s*\)\s*\?", text[:m.start()]):
+                    k = g.start()
+                    d = 0
+                    j = k - 1
+                    # walk back to the parenthesis that this `== 0)` closes
+                    d = 1
+                    while j >= 0 and d > 0:
+                        d += text[j] == ")"
+                        d -= text[j] == "("
+                        j -= 1
+                    guards.append(_strip_outer(text[j + 2:k]))
+                rep.check(dn in guards, rule, where(f), "%s:/%s" % (f.name, dn),
+                          "the divisor `%s` is tested against 0 before the division" % dn,
+                          "%s emits an integer division by `%s` guarded by %s: a divisor the guard lets through and the mask turns into 0 makes the generated C "
+                          "divide by zero (SIGFPE) where emulation returns the reference constant" % (f.name, dn, ("`%s == 0`" % "`, `".join(guards)) if guards else "nothing"),
+                          line=c.line)
+    if n < 1:
+        raise AnalysisBroken("no integer division found in the C back end's templates (divluw expected)")
+    return n
